@@ -41,6 +41,19 @@ func (e *requestBodyTooLargeError) Error() string {
 	return fmt.Sprintf("Request body exceeds max_request_bytes=%d", e.Limit)
 }
 
+// decodedBodyTooLargeError reports that a decompressed body exceeded the
+// decoded-size cap handed to decompressBounded. It is not, by itself, a
+// max_request_bytes refusal: readHTTPBody upgrades it to
+// requestBodyTooLargeError (HTTP 413) only when the cap in force was the
+// advertised request cap; otherwise it maps to HTTP 400.
+type decodedBodyTooLargeError struct {
+	Limit int64
+}
+
+func (e *decodedBodyTooLargeError) Error() string {
+	return fmt.Sprintf("Decompressed body exceeds the limit of %d bytes", e.Limit)
+}
+
 func buildHTTPTransportMeta(ipcMeta map[string]string, r *http.Request) map[string]string {
 	meta := make(map[string]string, len(ipcMeta)+4)
 	for k, v := range ipcMeta {
@@ -170,14 +183,24 @@ func (h *HttpServer) readHTTPBody(r *http.Request) ([]byte, error) {
 		return body, nil
 	case "zstd", "gzip":
 		decompressedCap := h.maxDecompressedBodySize
+		capIsRequestCap := false
 		if requestCapApplied && (decompressedCap <= 0 || limit < decompressedCap) {
 			decompressedCap = limit
+			capIsRequestCap = true
 		} else if decompressedCap == 0 && limit > 0 {
 			// Derived default. A negative value disables the cap (see
 			// SetMaxDecompressedBodySize) and must not be re-derived.
 			decompressedCap = limit * 16
 		}
-		return decompressBounded(encoding, body, decompressedCap)
+		out, derr := decompressBounded(encoding, body, decompressedCap)
+		var tooLarge *decodedBodyTooLargeError
+		if errors.As(derr, &tooLarge) {
+			if capIsRequestCap {
+				return nil, &requestBodyTooLargeError{Limit: limit}
+			}
+			return nil, &RpcError{Type: "ValueError", Message: tooLarge.Error()}
+		}
+		return out, derr
 	default:
 		return nil, &unsupportedEncodingError{Encoding: encoding}
 	}
